@@ -368,16 +368,14 @@ Definition any_channels (cmds : list c_cmd) : bool := existsb (fun c => nonempty
    escaped literal. is_identifier_name uses char::is_alphabetic / is_alphanumeric; on bytes every non-ASCII
    byte counts as a letter here (the code quotes names with non-alphabetic non-ASCII characters as well:
    the difference is only towards more quoting) *)
-(* is_identifier_name of the ts_key filter: first char is_alphabetic or _ or $, the others is_alphanumeric or _ or $.
-   On the generated alphabet char::is_alphabetic = the ID_Start table of Spec/C01Wf.v and char::is_alphanumeric adds
-   the decimal digits of other scripts AND category No (superscripts U+00B2 U+00B3 U+00B9, fractions U+00BC-00BE,
-   U+2070 U+2074-2079, subscripts U+2080-2089, U+2150-215F, circled U+2460-249B, dingbat numbers U+2776-2793),
-   which are not ECMAScript identifier characters; any other non-ASCII character counts as not alphanumeric *)
-Definition other_number_ranges : list (N * N) :=
-  [(178, 179); (185, 185); (188, 190); (8304, 8304); (8308, 8313); (8320, 8329); (8528, 8543); (9312, 9371); (10102, 10131)]%N.
+(* is_identifier_name of the ts_key filter (after the repair of C01-key-other-number): first char is_alphabetic or _ or $,
+   the others is_alphabetic or an ASCII digit or _ or $. On the generated alphabet char::is_alphabetic = the ID_Start
+   table of Spec/C01Wf.v plus the Devanagari vowel signs; decimal digits of other scripts and category No
+   (superscripts, subscripts, fractions, circled numbers) are not accepted any more: such names are quoted.
+   Outside the generated alphabet: Unicode has a few symbols with the Alphabetic property that are not identifier
+   characters (circled / squared Latin letters U+24B6-24E9, U+1F130-1F189); the model counts them as not alphabetic. *)
 Definition rust_alpha_cp (cp : N) : bool := in_ranges cp id_start_ranges.
-Definition rust_alnum_cp (cp : N) : bool :=
-  in_ranges cp id_start_ranges || in_ranges cp [(1632, 1641); (2366, 2380); (2406, 2415); (65296, 65305)]%N || in_ranges cp other_number_ranges.
+Definition rust_alnum_cp (cp : N) : bool := in_ranges cp id_start_ranges || in_ranges cp [(2366, 2380)]%N.
 Definition rust_ident_name (k : str) : bool := is_ts_identifier k && uni_walk rust_alpha_cp rust_alnum_cp true k.
 Definition key_chunk (k : str) : chunk := if rust_ident_name k then Hole HKey k else Hole (HStr DQ) (escape_js k).
 (* ts_key(member=true): .name or ["na-me"] *)
@@ -601,7 +599,7 @@ Definition bad_class (h : hclass) (s : str) : option string :=
      (match s with c :: _ => is_digit c | [] => false end) && forallb is_id_char s && negb (num_ok s)
   then Some "C01-digit-first"%string else
   match h with
-  | HKey => if rust_ident_name s && negb (is_ident_name s) then Some "C01-key-other-number"%string else None
+  | HKey => None
   | HFn => if is_ident_name s then Some "C01-reserved-fn"%string
            else None
   | HType | HZ => if has_sub "::" s then Some "C01-path-leak"%string
